@@ -9,10 +9,12 @@ def strictAbove (H : Hier) (ms : List Meth) (k : Key) (cur : Meth) : Bool :=
     !(m.id == cur.id || beats H k m cur) ||
     (applicable H ms k).all (fun m' => m'.id == m.id || beats H k m m' || beats H k m' m))
 
-/-- all method ids mentioned by a dict entry (a handler, or a dependent dispatcher with its fall-through chain) -/
+/-- all method ids mentioned by a dict entry (a handler, or a dependent dispatcher with its fall-through chain;
+    a chain that ends in a tied rank mentions the ids of that rank's ambiguity) -/
 def Entry.handlers : Entry → List Nat
   | .meth id => [id]
   | .dep hs next => hs ++ next.handlers
   | .noNext => []
+  | .ambNext ids => ids
 
 end Ovld
